@@ -1,6 +1,7 @@
 import Driver.Util
 import Driver.Suites.Blocks
 import Driver.Suites.Loop
+import Driver.Suites.Race
 import Driver.Suites.Request
 import Driver.Suites.Readpath
 import Driver.Suites.WQ
@@ -44,6 +45,7 @@ def registry : List Suite := [
   Suites.Loop.mkSuite "private",
   Suites.Loop.mkSuite "crashpoints",
   Suites.Loop.mkSuite "serve",
+  Suites.Race.suite,
   Suites.Request.suite,
   Suites.Readpath.suite,
   Suites.WQ.suite,
